@@ -952,6 +952,35 @@ class Idioms3(ast.NodeTransformer):
     def _keyset_test(e):
         """`d.keys() & {"a", "b"}` in a boolean context ->
         `"a" in d or "b" in d`"""
+        # not {"a", "b"}.isdisjoint(d) / {"a","b"}.intersection(d)
+        neg_ = False
+        e0 = e
+        if isinstance(e, ast.UnaryOp) and isinstance(e.op, ast.Not):
+            neg_, e0 = True, e.operand
+        if isinstance(e0, ast.Call) and isinstance(
+                e0.func, ast.Attribute) and e0.func.attr in (
+                "isdisjoint", "intersection") and isinstance(
+                e0.func.value, ast.Set) and e0.func.value.elts and all(
+                isinstance(x, ast.Constant) for x in e0.func.value.elts) \
+                and len(e0.args) == 1 and isinstance(
+                    e0.args[0], (ast.Name, ast.Attribute, ast.Call)):
+            d = e0.args[0]
+            if isinstance(d, ast.Call) and isinstance(
+                    d.func, ast.Attribute) and d.func.attr == "keys" and \
+                    not d.args:
+                d = d.func.value
+            if isinstance(d, (ast.Name, ast.Attribute)):
+                tests = [ast.Compare(left=x, ops=[ast.In()],
+                                     comparators=[clone(d)])
+                         for x in sorted(e0.func.value.elts,
+                                         key=lambda c: str(c.value))]
+                any_ = tests[0] if len(tests) == 1 else ast.BoolOp(
+                    op=ast.Or(), values=tests)
+                disj = e0.func.attr == "isdisjoint"
+                want_any = (disj and neg_) or (not disj and not neg_)
+                new = any_ if want_any else ast.UnaryOp(op=ast.Not(),
+                                                        operand=any_)
+                return ast.fix_missing_locations(ast.copy_location(new, e))
         if not (isinstance(e, ast.BinOp) and isinstance(e.op, ast.BitAnd)):
             return e
         for keys, lits in ((e.left, e.right), (e.right, e.left)):
@@ -4300,6 +4329,58 @@ def _assigned_before_use(fn, name):
                 return True
             return False
     return True
+
+
+def chainmap_locals(fn):
+    """`m = ChainMap(A, {"k": e, ..})` bound once and read only as
+    `m["k"]` -> `A.get("k", e)` (the first mapping wins, the literal one
+    supplies the default)."""
+    done = False
+    for par in [fn] + list(_walk_own(fn)):
+        for fld in ("body", "orelse", "finalbody"):
+            blk = getattr(par, fld, None)
+            if not isinstance(blk, list):
+                continue
+            for st in list(blk):
+                if not (isinstance(st, ast.Assign) and len(st.targets) == 1
+                        and isinstance(st.targets[0], ast.Name)
+                        and isinstance(st.value, ast.Call)
+                        and norm(st.value.func) in (
+                            "ChainMap", "collections.ChainMap")
+                        and len(st.value.args) == 2
+                        and isinstance(st.value.args[0],
+                                       (ast.Name, ast.Attribute))
+                        and isinstance(st.value.args[1], ast.Dict)
+                        and all(k is not None and isinstance(k, ast.Constant)
+                                for k in st.value.args[1].keys)):
+                    continue
+                m = st.targets[0].id
+                A, lit = st.value.args
+                table = {k.value: v for k, v in zip(lit.keys, lit.values)}
+                refs = [n for n in ast.walk(fn) if isinstance(n, ast.Name)
+                        and n.id == m]
+                subs = [n for n in ast.walk(fn) if isinstance(
+                    n, ast.Subscript) and isinstance(n.value, ast.Name)
+                    and n.value.id == m and isinstance(n.ctx, ast.Load)
+                    and isinstance(n.slice, ast.Constant)
+                    and n.slice.value in table]
+                if len(refs) != 1 + len(subs) or not subs:
+                    continue
+                if not all(isinstance(v, (ast.Name, ast.Attribute,
+                                          ast.Constant))
+                           for v in table.values()):
+                    continue
+                for sb in subs:
+                    _replace_in(fn, sb, ast.Call(
+                        func=ast.Attribute(value=clone(A), attr="get",
+                                           ctx=ast.Load()),
+                        args=[clone(sb.slice), clone(table[sb.slice.value])],
+                        keywords=[]))
+                blk.remove(st)
+                done = True
+    if done:
+        ast.fix_missing_locations(fn)
+    return done
 
 
 def conditional_pipelines(fn):
